@@ -568,6 +568,24 @@ bool applyStep(QDomDocument &doc, QDomElement &root, QDomElement &anchor, const 
         }
         return true;
     }
+    if (op == "DuplicateWithOtherChild") {
+        // a copy of `cur` (its own attributes, none of its children) holding one child of another kind its
+        // parser knows, with the attributes that kind has at its first occurrence in the corpus
+        auto parent = cur.parentNode();
+        if (parent.isNull() || cur == root) {
+            return false;
+        }
+        auto copy = cur.cloneNode(false).toElement();
+        const auto ns = st["ns"].toString();
+        auto child = ns.isEmpty() ? doc.createElement(st["name"].toString()) : doc.createElementNS(ns, st["name"].toString());
+        const auto attrs = st["attrs"].toObject();
+        for (auto it = attrs.begin(); it != attrs.end(); ++it) {
+            child.setAttribute(it.key(), it.value().toString());
+        }
+        copy.appendChild(child);
+        parent.insertAfter(copy, cur);
+        return true;
+    }
     if (op == "MoveText") {
         // the character data of `cur` moves to its right neighbour
         auto next = cur.nextSiblingElement();
